@@ -4,8 +4,55 @@
 package plonk
 
 //@ spec func wfVK(vk *VerifyingKey) bool = len(vk.CommitmentConstraintIndexes) == len(vk.Qcp)
+// a proof object does not contain the backing arrays of its own slices (true of every decoded or proved proof)
+//@ spec func wfProof(proof *Proof) bool = alloc(proof.Bsb22Commitments) != alloc(proof) && alloc(proof.BatchedProof.ClaimedValues) != alloc(proof)
 
+// Verify: never panics (C08) and accepts only when every conjunct of the PLONK / BSB22 acceptance
+// predicate holds (C02). Conjuncts are written from the protocol, cryptographic primitives are uninterpreted.
 //@ contract func Verify
-//@   props C08
-//@   requires proof != nil && vk != nil && wfVK(vk)
+//@   props C02 C08
+//@   requires proof != nil && vk != nil && wfVK(vk) && wfProof(proof) && alloc(proof) != alloc(vk)
+//@   nopanic[C08]
+//@   loop 1 invariant forall k int :: 0 <= k && k < i ==> inSubG1(proof.LRO[k])
+//@   loop 2 invariant forall k int :: 0 <= k && k < i ==> inSubG1(proof.H[k])
+//@   loop 3 invariant forall k int :: 0 <= k && k < i ==> inSubG1(proof.Bsb22Commitments[k])
+//@   ensures[C02] @counts result == nil ==> len(proof.Bsb22Commitments) == len(vk.Qcp) && len(publicWitness) == int(vk.NbPublicVariables) && len(proof.BatchedProof.ClaimedValues) == 6 + len(vk.Qcp)
+//@   ensures[C02] @subgroup-lro-h result == nil ==> forall k int :: 0 <= k && k < 3 ==> inSubG1(proof.LRO[k]) && inSubG1(proof.H[k])
+//@   ensures[C02] @subgroup-bsb22 result == nil ==> forall k int :: 0 <= k && k < len(proof.Bsb22Commitments) ==> inSubG1(proof.Bsb22Commitments[k])
+//@   ensures[C02] @subgroup-z-openings result == nil ==> inSubG1(proof.Z) && inSubG1(proof.BatchedProof.H) && inSubG1(proof.ZShiftedOpening.H)
+//@   ensures[C02] @folded-digests result == nil ==> digestsToFold[0] == linearizedPolynomialDigest && digestsToFold[1] == proof.LRO[0] && digestsToFold[2] == proof.LRO[1] && digestsToFold[3] == proof.LRO[2] && digestsToFold[4] == vk.S[0] && digestsToFold[5] == vk.S[1] && len(digestsToFold) == 6 + len(vk.Qcp)
+//@   ensures[C02] @fold result == nil ==> kzgFoldOK(digestsToFold, proof.BatchedProof.H, proof.BatchedProof.ClaimedValues, zeta, foldedProof, foldedDigest)
+//@   ensures[C02] @kzg-batch result == nil ==> kzgBatchOK(foldedDigest, proof.Z, foldedProof, proof.ZShiftedOpening, zeta, shiftedZeta, vk.Kzg) && shiftedZeta == fmul(zeta, vk.Generator)
+//@   ensures[C02] @public-data-bound result == nil ==> boundKey(fs, 0, "gamma", vk) && boundQcp(fs, 0, "gamma", vk, len(vk.Qcp)) && (forall k int :: 0 <= k && k < len(publicWitness) ==> titem(fs, 8 + len(vk.Qcp) + k) == bindItem("gamma", frItem(publicWitness[k])))
+//@   ensures[C02] @algebraic-relation result == nil ==> proof.BatchedProof.ClaimedValues[0] == fneg(fadd(fsub(fmul(fmul(fmul(fmul(fadd(fadd(l, fmul(beta, s1)), gamma), fadd(fadd(r, fmul(beta, s2)), gamma)), fadd(o, gamma)), alpha), zu), fmul(fmul(lagrangeZero, alpha), alpha)), pi))
+//@   ensures[C02] @claimed-values-used result == nil ==> l == proof.BatchedProof.ClaimedValues[1] && r == proof.BatchedProof.ClaimedValues[2] && o == proof.BatchedProof.ClaimedValues[3] && s1 == proof.BatchedProof.ClaimedValues[4] && s2 == proof.BatchedProof.ClaimedValues[5] && zu == proof.ZShiftedOpening.ClaimedValue
+
+// the first eight items bound by bindPublicData, starting at position n0 of the transcript
+//@ spec func boundKey(fs *Transcript, n0 int, challenge string, vk *VerifyingKey) bool = titem(fs, n0) == bindItem(challenge, g1Item(vk.S[0])) && titem(fs, n0 + 1) == bindItem(challenge, g1Item(vk.S[1])) && titem(fs, n0 + 2) == bindItem(challenge, g1Item(vk.S[2])) && titem(fs, n0 + 3) == bindItem(challenge, g1Item(vk.Ql)) && titem(fs, n0 + 4) == bindItem(challenge, g1Item(vk.Qr)) && titem(fs, n0 + 5) == bindItem(challenge, g1Item(vk.Qm)) && titem(fs, n0 + 6) == bindItem(challenge, g1Item(vk.Qo)) && titem(fs, n0 + 7) == bindItem(challenge, g1Item(vk.Qk))
+//@ spec func boundQcp(fs *Transcript, n0 int, challenge string, vk *VerifyingKey, n int) bool = forall k int :: 0 <= k && k < n ==> titem(fs, n0 + 8 + k) == bindItem(challenge, g1Item(vk.Qcp[k]))
+
+// bindPublicData binds, in this order and under the given challenge name, the three permutation
+// commitments, the five selector commitments, every Qcp commitment and EVERY public input.
+//@ contract func bindPublicData
+//@   props C02
+//@   requires fs != nil && vk != nil
 //@   nopanic
+//@   loop 1 invariant @len tlen(fs, 0) == old(tlen(fs, 0)) + 8 + i
+//@   loop 1 invariant @key boundKey(fs, old(tlen(fs, 0)), challenge, vk)
+//@   loop 1 invariant @qcp boundQcp(fs, old(tlen(fs, 0)), challenge, vk, i)
+//@   loop 2 invariant @len tlen(fs, 0) == old(tlen(fs, 0)) + 8 + len(vk.Qcp) + i
+//@   loop 2 invariant @key boundKey(fs, old(tlen(fs, 0)), challenge, vk)
+//@   loop 2 invariant @qcp boundQcp(fs, old(tlen(fs, 0)), challenge, vk, len(vk.Qcp))
+//@   loop 2 invariant @pi forall k int :: 0 <= k && k < i ==> titem(fs, old(tlen(fs, 0)) + 8 + len(vk.Qcp) + k) == bindItem(challenge, frItem(publicInputs[k]))
+//@   ensures @count result == nil ==> tlen(fs, 0) == old(tlen(fs, 0)) + 8 + len(vk.Qcp) + len(publicInputs)
+//@   ensures @key-bound result == nil ==> boundKey(fs, old(tlen(fs, 0)), challenge, vk) && boundQcp(fs, old(tlen(fs, 0)), challenge, vk, len(vk.Qcp))
+//@   ensures @public-inputs result == nil ==> forall k int :: 0 <= k && k < len(publicInputs) ==> titem(fs, old(tlen(fs, 0)) + 8 + len(vk.Qcp) + k) == bindItem(challenge, frItem(publicInputs[k]))
+
+// deriveRandomness only appends to the transcript: everything bound before stays bound.
+//@ contract func deriveRandomness
+//@   props C02
+//@   requires fs != nil
+//@   nopanic
+//@   assigns *fs, titem(fs), tlen(fs, 0)
+//@   loop 1 invariant tlen(fs, 0) >= old(tlen(fs, 0)) && (forall k int :: 0 <= k && k < old(tlen(fs, 0)) ==> titem(fs, k) == old(titem(fs, k)))
+//@   ensures @append-only tlen(fs, 0) >= old(tlen(fs, 0)) && (forall k int :: 0 <= k && k < old(tlen(fs, 0)) ==> titem(fs, k) == old(titem(fs, k)))
